@@ -411,13 +411,21 @@ def rule_read_target(rep: Report, repo: Repo) -> None:
              'fires for an arbitrarily large index dominates the memory reads', 2)
     import re._parser as _rp          # type: ignore[import-not-found]
     hr = repo.func(BRK, 'BreakpointHandler.handle_read_memory')
-    pats = [c for c in calls(hr) if dotted(c.func) in ('re.match', 're.fullmatch', 're.search') and c.args and isinstance(c.args[0], ast.Constant)
-            and isinstance(c.args[0].value, str)]
+    # the pattern: a literal handed to re.match / fullmatch, or a module-level `X = re.compile(<literal>)` used as X.match / X.fullmatch
+    compiled = {n_: v_.args[0].value for n_, v_ in repo.module_assigns(BRK).items() if isinstance(v_, ast.Call) and dotted(v_.func) == 're.compile'
+                and v_.args and isinstance(v_.args[0], ast.Constant) and isinstance(v_.args[0].value, str)}
+    pats = []
+    for c in calls(hr):
+        d_ = dotted(c.func)
+        if d_ in ('re.match', 're.fullmatch', 're.search') and c.args and isinstance(c.args[0], ast.Constant) and isinstance(c.args[0].value, str):
+            pats.append((c, c.args[0].value, d_.split('.')[-1]))
+        elif isinstance(c.func, ast.Attribute) and c.func.attr in ('match', 'fullmatch', 'search') and isinstance(c.func.value, ast.Name) and c.func.value.id in compiled:
+            pats.append((c, compiled[c.func.value.id], c.func.attr))
     if len(pats) != 1:
-        raise AnalysisError(f'C15.READ-TARGET: {len(pats)} pattern matches with a literal pattern in handle_read_memory (one expected)')
-    pat = pats[0].args[0].value
+        raise AnalysisError(f'C15.READ-TARGET: {len(pats)} pattern matches in handle_read_memory (one expected: a literal or a compiled module constant)')
+    pat_call, pat, how_ = pats[0]
     tree = list(_rp.parse(pat))
-    anchored = dotted(pats[0].func) == 're.fullmatch' or (tree and str(tree[-1][0]) == 'AT' and 'END' in str(tree[-1][1]))
+    anchored = how_ == 'fullmatch' or (tree and str(tree[-1][0]) == 'AT' and 'END' in str(tree[-1][1]))
     groups = [t for t in tree if str(t[0]) == 'SUBPATTERN']
 
     def charset(items: Any) -> Set[int]:
@@ -455,7 +463,7 @@ def rule_read_target(rep: Report, repo: Repo) -> None:
         return out
     missing = sorted(chr(c_) for c_ in _LABEL_CHARS - charset(groups[-1][1][3])) if groups else ['<no group>']
     rep.check(bool(anchored) and not missing, 'C15.READ-TARGET', 'target pattern', f'`{pat}`: whole string={bool(anchored)}; label characters the target group '
-              f'refuses: {missing}', f'{BRK}:{pats[0].lineno} handle_read_memory', expected='fullmatch, target group = the rest of the string')
+              f'refuses: {missing}', f'{BRK}:{pat_call.lineno} handle_read_memory', expected='fullmatch, target group = the rest of the string')
     # the range: in show_memory_address, after the f/j adjustment, a report-and-return refusal that fires for a huge index / address
     sm = repo.func(BRK, 'show_memory_address')
     reads = [c for c in ast.walk(sm) if isinstance(c, ast.Call) and dotted(c.func) in ('mem.get_word', 'calculate_variable_value')]
@@ -464,36 +472,89 @@ def rule_read_target(rep: Report, repo: Repo) -> None:
     adj = [n for n in ast.walk(sm) if isinstance(n, ast.Assign) and isinstance(n.value, ast.Call) and dotted(n.value.func) == 'handle_read_f_j']
     adj_line = adj[0].lineno if adj else 0
     from ..pyfacts import resolve_names as _rn
+    # the statements between the f/j adjustment and the first read are FOLDED for concrete (prefix, address) cases: assignments to
+    # names (also the unpacking of the typed prefix), ifs with foldable tests, and a report-and-return (show_message .. return) ends the
+    # case as refused; reaching a statement that reads memory ends it as let through
+    first_read = min(r.lineno for r in reads)
+
+    def top_block() -> List[ast.stmt]:
+        blk: List[ast.stmt] = list(sm.body)
+        for st in sm.body:
+            if isinstance(st, ast.Try) and any(r is x for r in reads for x in ast.walk(st)):
+                blk = list(st.body)
+        return [st for st in blk if st.lineno > adj_line]
     refusals = [i for i in ast.walk(sm) if isinstance(i, ast.If) and i.body and isinstance(i.body[-1], ast.Return)
                 and any(isinstance(c, ast.Call) and dotted(c.func) == 'show_message' for b in i.body for c in ast.walk(b))
-                and i.lineno > adj_line and i.lineno < min(r.lineno for r in reads) and not any(r is x for r in reads for x in ast.walk(i))]
+                and i.lineno > adj_line and i.lineno < first_read and not any(r is x for r in reads for x in ast.walk(i))]
     BIG = 1 << 200
 
+    class _Unknown(Exception):
+        pass
+
+    def fold_case(prefix: Optional[Tuple[int, int]], address: int) -> str:
+        env: Dict[str, Any] = {'w': 64, 'mem.memory_width': 64, 'address': address}
+        tup = None if prefix is None else ('h', prefix[0], prefix[1])
+
+        def val(e: ast.expr) -> Any:
+            class S(ast.NodeTransformer):
+                def visit_Subscript(self, node: ast.Subscript) -> ast.AST:
+                    if norm(node.value) == 'variable_prefix' and isinstance(node.slice, ast.Constant) and tup is not None and node.slice.value in (1, 2):
+                        return ast.Constant(value=tup[node.slice.value])
+                    return self.generic_visit(node)
+
+                def visit_Compare(self, node: ast.Compare) -> ast.AST:
+                    if norm(node.left) == 'variable_prefix' and len(node.ops) == 1 and isinstance(node.comparators[0], ast.Constant) and node.comparators[0].value is None:
+                        return ast.Constant(value=int((tup is None) == isinstance(node.ops[0], ast.Is)))
+                    return self.generic_visit(node)
+
+                def visit_Name(self, node: ast.Name) -> ast.AST:
+                    if node.id == 'variable_prefix' and isinstance(node.ctx, ast.Load):
+                        return ast.Constant(value=int(tup is not None))
+                    return node
+            try:
+                return eval_int_expr(ast.fix_missing_locations(S().visit(clone(e))), {k: v for k, v in env.items() if isinstance(v, int)})
+            except (AnalysisError, ArithmeticError, ValueError) as ex:
+                raise _Unknown(str(ex))
+
+        def run_(stmts: List[ast.stmt]) -> Optional[str]:
+            for st in stmts:
+                if any(r is x for r in reads for x in ast.walk(st)) and not isinstance(st, ast.If):
+                    return 'through'
+                if isinstance(st, ast.Assign) and len(st.targets) == 1 and isinstance(st.targets[0], ast.Name):
+                    try:
+                        env[st.targets[0].id] = val(st.value)
+                    except _Unknown:
+                        env.pop(st.targets[0].id, None)
+                elif isinstance(st, ast.Assign) and len(st.targets) == 1 and isinstance(st.targets[0], ast.Tuple) and norm(st.value) == 'variable_prefix' and tup is not None:
+                    for t_, v_ in zip(st.targets[0].elts, tup):
+                        if isinstance(t_, ast.Name) and isinstance(v_, int):
+                            env[t_.id] = v_
+                elif isinstance(st, ast.If):
+                    try:
+                        taken = bool(val(st.test))
+                    except _Unknown:
+                        if any(r is x for r in reads for x in ast.walk(st)):
+                            return 'through'
+                        continue
+                    body = st.body if taken else st.orelse
+                    if any(r is x for r in reads for b_ in body for x in ast.walk(b_)):
+                        return 'through'
+                    if taken and body and isinstance(body[-1], ast.Return) and any(isinstance(c, ast.Call) and dotted(c.func) == 'show_message' for b_ in body for c in ast.walk(b_)):
+                        return 'refused'
+                    r_ = run_(list(body))
+                    if r_ is not None:
+                        return r_
+                elif isinstance(st, ast.Return):
+                    return 'through'
+            return None
+        return run_(top_block()) or 'through'
+
     def fires(test: ast.expr, prefix: Optional[Tuple[int, int]], address: int) -> bool:
-        class S(ast.NodeTransformer):
-            def visit_Subscript(self, node: ast.Subscript) -> ast.AST:
-                if norm(node.value) == 'variable_prefix' and isinstance(node.slice, ast.Constant) and prefix is not None and node.slice.value in (1, 2):
-                    return ast.Constant(value=prefix[node.slice.value - 1])
-                return self.generic_visit(node)
-
-            def visit_Compare(self, node: ast.Compare) -> ast.AST:
-                if norm(node.left) == 'variable_prefix' and len(node.ops) == 1 and isinstance(node.comparators[0], ast.Constant) and node.comparators[0].value is None:
-                    return ast.Constant(value=int((prefix is None) == isinstance(node.ops[0], ast.Is)))
-                return self.generic_visit(node)
-
-            def visit_Name(self, node: ast.Name) -> ast.AST:
-                if node.id == 'variable_prefix' and isinstance(node.ctx, ast.Load):
-                    return ast.Constant(value=int(prefix is not None))
-                return node
-        t2 = ast.fix_missing_locations(S().visit(clone(_rn(sm, test))))
-        try:
-            return bool(eval_int_expr(t2, {'w': 64, 'mem.memory_width': 64, 'address': address}))
-        except (AnalysisError, ArithmeticError, ValueError):
-            return False
+        return False
     cases = {'a huge index of a variable': ((1, BIG), 0), 'a huge length of a variable': ((BIG, 0), 0), 'an f/j offset beyond the memory': (None, BIG),
              'the last word plus a one-cell variable': ((1, 0), (1 << 64) - 64)}
-    uncovered = [nm for nm, (pf, ad) in cases.items() if not any(fires(i.test, pf, ad) for i in refusals)]
-    quiet = [nm for nm, (pf, ad) in {'an ordinary variable': ((4, 2), 1024), 'an ordinary word': (None, 1024)}.items() if any(fires(i.test, pf, ad) for i in refusals)]
+    uncovered = [nm for nm, (pf, ad) in cases.items() if fold_case(pf, ad) != 'refused']
+    quiet = [nm for nm, (pf, ad) in {'an ordinary variable': ((4, 2), 1024), 'an ordinary word': (None, 1024)}.items() if fold_case(pf, ad) == 'refused']
     rep.check(not uncovered and not quiet, 'C15.READ-TARGET', 'read range', f'{len(refusals)} report-and-return tests between the f/j adjustment and the reads; '
               f'not refused: {uncovered}; wrongly refused: {quiet}', f'{BRK}:{sm.lineno} show_memory_address',
               expected='a read that ends beyond 2^w is reported and skipped; ordinary reads go through')
